@@ -24,6 +24,9 @@ pub struct CrdtSession {
     pub offered: BTreeMap<String, std::collections::BTreeSet<String>>,
     /// two replicas share an actor id (conflicting (actor, seq) pairs possible): C05 oracle off
     pub shared_actor: bool,
+    /// text objects that received a mark op (`crdt.rt.mark`): the generators edit them through the
+    /// mark-aware `crdt.rt.splice` from then on (the plain `crdt.splice` of the model ignores sticky marks)
+    pub marked_texts: std::collections::BTreeSet<String>,
 }
 
 // ---------- canonical text forms (shared with Lean `Spec.show*`) ----------
@@ -980,7 +983,8 @@ pub fn local_tx(r: &mut Rng, sess: &mut Session, out: &mut Out, who: &str, known
                 let pos = if r.chance(1, 15) { len + 1 } else { r.below(len + 1) };
                 let del = if len > pos && r.chance(1, 3) { r.range(1, (len - pos).min(3)) } else { 0 };
                 let txt = ["a", "bc", "é", "🙂", "xyz", "", "e\u{301}"][r.below(7) as usize];
-                format!("crdt.splice {} {} {} {} {}", who, obj, pos, del, hx(txt.as_bytes()))
+                if cfg!(feature = "e_richtext") && sess.crdt.marked_texts.contains(&obj) { format!("crdt.rt.splice {} {} {} {} {} -", who, obj, pos, del, hx(txt.as_bytes())) }
+                else { format!("crdt.splice {} {} {} {} {}", who, obj, pos, del, hx(txt.as_bytes())) }
             }
         };
         let res = exec_line(sess, &line, out);
